@@ -16,6 +16,13 @@ def lru_part(ctx):
     r = ctx.tlc("LRU", cfg % (5 if ctx.quick else 7), name="lru-model", workers=8)
     core.require_clean(r, "LRU")
     core.require_coverage(r, ["SetItem", "GetItem", "Get"])
+    # any number of operations: inductive invariant discharged symbolically by Apalache (spec/apalache/LRUInd.tla, 5 keys, maxsize 3)
+    if not ctx.apalache("LRUInd", init="Init", inv="IndInv", length=0, name="lru-ind-base"):
+        raise core.MachineryError("LRUInd: the initial state violates the inductive invariant")
+    if not ctx.apalache("LRUInd", init="IndInit", inv="IndInv", length=1, name="lru-ind-step"):
+        raise core.MachineryError("LRUInd: the inductive step fails (IndInv is not inductive)")
+    if ctx.apalache("LRUInd", init="IndInit", inv="IndInv", length=1, next_="NextNoEvict", name="lru-ind-step-noevict"):
+        raise core.MachineryError("LRUInd: the induction step accepts an LRU without eviction (vacuous?)")
     dot = ctx.outdir / "lru.dot"
     rg = ctx.tlc("LRU", cfg % (4 if ctx.quick else 5), name="lru-graph", workers=1, coverage=False, extra=["-dump", "dot,actionlabels", str(dot)])
     core.require_clean(rg, "LRU graph")
